@@ -10,6 +10,8 @@ func genC21(o *Out) {
 	w := o.pinFile("isaac/database/block_write.go", "LeveldbBlockWrite.Write", "LeveldbBlockWrite.SetBlockMap", "LeveldbBlockWrite.SetStates", "LeveldbBlockWrite.SetOperations",
 		"LeveldbBlockWrite.SetSuffrageProof", "LeveldbBlockWrite.TempDatabase", "LeveldbBlockWrite.batchAdd", "LeveldbBlockWrite.batchDone", "removeHigherHeights")
 	c := o.pinFile("isaac/database/center.go", "Center.MergeBlockWriteDatabase", "Center.MergeAllPermanent", "Center.mergePermanent", "Center.removeTemp", "loadTemp", "loadTemps", "mergeToPermanent", "Center.load")
+	_ = o.pinFile("storage/leveldb/prefix.go", "RemoveByPrefix")
+	_ = o.pinFile("storage/leveldb/db.go", "BatchRemove", "Storage.Batch", "Storage.Put")
 	if p == nil || t == nil || w == nil || c == nil {
 		return
 	}
